@@ -25,7 +25,7 @@ KIND_REPS = [['int', 3], ['fixed', 640], ['str', 'k l'], ['obj', 'zz_y', 12], ['
              ['nil'], ['fd', 4], ['array', 0]]
 
 STR_TOKENS = ['a', ' ', ',', ', ', '(', ')', '[', ']', '{', '}', '<1>', '@3', '#3', ' -> ', '.', 'nil', 'new id ', 'fd 3',
-              'array', '7', '-', '1.5', "'", 'é', '[1.0] ', 'x@1.y(', '1,5', '10,20,30', ':)',
+              'array', '7', '-', '1.5', "'", 'é', '[1.0] ', 'x@1.y(', '1,5', '10,20,30', ':)', '(null)', 'null', 'Café 日本語',
               # composite bodies that look like a whole message head
               '[1.0]  -> x@1.y(', '} <2> c#2.d(', '[2.0] z@2.w(', '[3.0] <6>  -> v@4.u(', '[3.0] {q} <7> v@4.u(']
 
@@ -180,6 +180,10 @@ LONG_LENGTHS = [100, 4000, 4040, 4060, 4083, 4096, 8192, 70000]
 
 
 def gen_pipeline_cases(tier):
+    for (d, q, c) in COMBOS_SMALL[1:]:
+        for body in ('Café – 日本語 ±', 'plain'):
+            yield {'pipeline': True, 'file_cli': True, 'd': d,
+                   'm': base_msg([['obj', 'wl_display', 1], ['int', 3], ['str', body]], False, q, c, iface='wl_display', oid=1, name='error')}
     for n in LONG_LENGTHS:
         for (d, q, c) in COMBOS_SMALL:
             for body in ('x' * n, 'ab, ' * (n // 4)):
@@ -191,8 +195,34 @@ def gen_pipeline_cases(tier):
                            'm': base_msg([['int', 7], ['str', body], ['int', 1], ['new', None, 3]], True, q, c, iface='wl_registry', oid=2, name='bind')}
 
 
+def evaluate_file_cli(case):
+    """The same decoding through the real command line in file mode (the file is opened and decoded by the tool)."""
+    import os
+    import subprocess
+    import tempfile
+    V = []
+    m, d = case['m'], case['d']
+    line = wlprint.render(m, d)
+    text = [a[1] for a in m['args'] if a[0] == 'str'][0]
+    with tempfile.TemporaryDirectory(prefix='verif-c01-') as td:
+        path = os.path.join(td, 'in.log')
+        with open(path, 'w', encoding='utf-8') as f:
+            f.write(wlprint.render(base_msg([['new', 'wl_registry', 2]], True, m['queue'], m['conn'], t_us=m['t_us'], iface='wl_display',
+                                            oid=1, name='get_registry'), d) + '\n' + line + '\n')
+        env = dict(os.environ, PYTHONDONTWRITEBYTECODE='1', PYTHONIOENCODING='utf-8', LC_ALL='C.utf8')
+        p = subprocess.run(['/venv/bin/python', os.path.join(sut.REPO, 'main.py'), '-C', '-l', path], input=b'q\n', capture_output=True,
+                           env=env, cwd=td, timeout=60)
+        out = p.stdout.decode('utf-8', 'replace')
+        if text not in out or 'wl_display@1a.error' not in out:
+            V.append(Violation('decode.file_mode_string', case, {'string': text, 'shown': [l for l in out.split('\n') if '.error(' in l][:2],
+                                                                 'stderr': p.stderr.decode('utf-8', 'replace')[-200:]}))
+    return Eval(V, outcome=len(V), nontrivial=True)
+
+
 def evaluate_pipeline(case):
     from .. import outparse
+    if case.get('file_cli'):
+        return evaluate_file_cli(case)
     m, d = case['m'], case['d']
     line = wlprint.render(m, d)
     V = []
